@@ -419,6 +419,74 @@ def mutator_sequence():
     return None
 
 
+def small_beta_and_recycled_output():
+    """(a) the mutation step at a small positive temperature (beta = 2**-14, 3e-5, 9.9e-5: reached by the temperature search for very
+    informative likelihoods) is an MCMC move for likelihood**beta: particles come out as accepted proposals or unchanged, never as
+    fresh prior draws; (b) a kernel driven by a vectorised likelihood that recycles its output buffer between calls gives the same
+    walkers as with a likelihood returning fresh arrays (same seed), and the returned logl is the likelihood at the returned x"""
+    from tempest.state_manager import StateManager
+    from tempest.steps.mutate import Mutator
+    d, n = 2, 40
+    rng = np.random.RandomState(41)
+    ms = ModeStatistics(np.array([[0.5, 0.5]]), np.array([[[0.0004, 0.0], [0.0, 0.0004]]]), np.array([5.0]))
+    u0 = np.clip(0.5 + 0.01 * rng.standard_normal((n, d)), 0.01, 0.99)
+    like = lambda X: (-0.5 * np.sum(((np.atleast_2d(X) - 0.5) / 1e-3) ** 2, axis=1), None)
+    for kernel in ("tpcn", "rwm"):
+        for beta in (2.0 ** -14, 3e-5, 9.9e-5, 1e-3):
+            sm = StateManager(d)
+            sm.update_current({"u": u0.copy(), "x": u0.copy(), "logl": like(u0)[0], "beta": beta, "logz": -5.0, "iter": 4, "calls": 0,
+                               "assignments": np.zeros(n, dtype=int), "ess": 1.0})
+            try:
+                mu_ = Mutator(sm, lambda v: np.array(v, dtype=float), like, None, n, d, 1, 1, kernel, None, None, False)
+            except Exception:
+                return None
+            st_rng = np.random.get_state()
+            np.random.seed(8)
+            try:
+                mu_.run(ms)
+            except Exception as e:
+                return f"Mutator.run at beta = {beta!r} raised {type(e).__name__}: {e}"
+            finally:
+                np.random.set_state(st_rng)
+            after = np.asarray(sm.get_current("u"))
+            spread = float(np.abs(after - 0.5).max())
+            # proposals of this kernel stay within a few proposal widths (0.02 * sigma * heavy tail) of the mode; prior draws fill the unit square
+            far = int(np.sum(np.abs(after - 0.5).max(axis=1) > 0.35))
+            if far > n // 4:
+                return (f"{kernel}: after Mutator.run at beta = {beta!r} {far} of {n} particles lie more than 0.35 from the mode although they started within 0.04 of it and "
+                        f"the proposal scale is 0.02: the particles were replaced by prior draws (the step is not an MCMC move for likelihood**beta at this temperature)")
+    for kernel in ("tpcn", "rwm"):
+        outs = []
+        for recycle in (False, True):
+            buf = {}
+
+            def lk(X, recycle=recycle, buf=buf):
+                X = np.atleast_2d(X)
+                v = 3.0 * X[:, 0] - 2.0 * X[:, -1]
+                if not recycle:
+                    return v, None
+                out = buf.setdefault(len(X), np.empty(len(X)))
+                out[:] = v
+                return out, None
+            r, _ = make(kernel, 2, 1, None, None, np.random.RandomState(51), like=lk, n=6)
+            r._check_convergence = lambda acc, r=r: r.iteration >= 4
+            st_rng = np.random.get_state()
+            np.random.seed(9)
+            try:
+                r.run()
+            except Exception as e:
+                return f"{kernel}: run with a likelihood that recycles its output buffer raised {type(e).__name__}: {e}"
+            finally:
+                np.random.set_state(st_rng)
+            outs.append((np.array(r.u, copy=True), np.array(r.logl, copy=True), np.array(r.x, copy=True)))
+            if not np.allclose(outs[-1][1], 3.0 * outs[-1][2][:, 0] - 2.0 * outs[-1][2][:, -1], rtol=0, atol=1e-12):
+                return (f"{kernel}: with a vectorised likelihood that {'recycles its output buffer' if recycle else 'returns fresh arrays'} the returned logl is not the "
+                        f"likelihood at the returned x for {int(np.sum(~np.isclose(outs[-1][1], 3.0 * outs[-1][2][:, 0] - 2.0 * outs[-1][2][:, -1])))} walkers")
+        if not (np.array_equal(outs[0][0], outs[1][0]) and np.array_equal(outs[0][1], outs[1][1])):
+            return f"{kernel}: the same seeded kernel run gives different walkers when the likelihood recycles its output buffer (the runner keeps the user's array as its state)"
+    return None
+
+
 def mode_statistics_consistent():
     rng = np.random.RandomState(8)
     for scale in (1.0, 1e-4, 1e-6):
@@ -612,7 +680,7 @@ def main():
                 return
     if not inp.get("kernel"):
         for name, fn in (("rejection", hard_boundary_rejection), ("whole-move-rejection", whole_move_rejection),
-                         ("mode-statistics", mode_statistics_consistent), ("law-after-moves", law_after_moves), ("nested-kernels", nested_kernels), ("mutator-sequence", mutator_sequence), ("accept-statement", accept_statement), ("sigma-range", sigma_range),
+                         ("mode-statistics", mode_statistics_consistent), ("law-after-moves", law_after_moves), ("nested-kernels", nested_kernels), ("small-beta / recycled-output", small_beta_and_recycled_output), ("mutator-sequence", mutator_sequence), ("accept-statement", accept_statement), ("sigma-range", sigma_range),
                          ("wiring", wiring)):
             tried += 1
             try:
